@@ -39,12 +39,15 @@ ASSUMPTIONS = [
 ]
 
 T0 = 1_700_000_000_000
+LAT0, LON0, STEP = 415000000, 21000000, 2000        # stations ~28 m apart (1/10 microdegree units)
 KIND_AID = {"cam": 36, "vam": 638, "denm": 37, "other": 99}
 
 
 class World:
-    def __init__(self, rng, n, apps=None, groups=None, vals=None, ssps=None):
-        """`vals[k][i]` = [start - now, unit, count] and `ssps[k][i]` = PsidSsp entries (sc.psid_ssp_json) of ticket i of
+    def __init__(self, rng, n, apps=None, groups=None, vals=None, ssps=None, monitors=()):
+        """`monitors`: stations that only LISTEN (a VerifyService built without a SignService -- the constructor default:
+        roadside monitor, logger, receive-only unit): they hold no ticket and never send.
+        `vals[k][i]` = [start - now, unit, count] and `ssps[k][i]` = PsidSsp entries (sc.psid_ssp_json) of ticket i of
         station k when a recorded world is rebuilt; otherwise drawn from `rng`: half of the tickets get a validity period
         over a random IEEE 1609.2 Duration unit placed so that the scenario runs near its start / middle / END
         (sc.validity_around), and appPermissions entries with and without an ssp component"""
@@ -61,8 +64,11 @@ class World:
         # a station holds ONE ticket for everything it sends, or SEPARATE tickets per service (CAM / VAM / DENM):
         # `tickets[k]` in the order they are installed (the signer takes the first one covering the ITS-AID)
         self.tickets = []
+        self.monitors = sorted(monitors)
         for k in range(n):
-            if apps:
+            if k in self.monitors:
+                spec = []
+            elif apps:
                 spec = apps[k] if apps[k] and isinstance(apps[k][0], list) else [apps[k]]
             elif rng.random() < 0.35:
                 spec = rng.choice([[[36, 37, 99], [638]], [[36], [638, 37]], [[638], [36, 37, 99]], [[36, 99], [37], [638]]])
@@ -81,7 +87,7 @@ class World:
                 entries = sc.psid_ssp_from_json(ssps[k][i]) if ssps is not None else [sc.psid_ssp(x, rng) for x in app]
                 row.append(p.issue(self.aa, app=entries, **val))
             self.tickets.append(row)
-        self.ats = [t[0] for t in self.tickets]
+        self.ats = [t[0] if t else None for t in self.tickets]
         self.groups = [(g["subjectPermissions"][0], [e["psid"] for e in (g["subjectPermissions"][1] or [])])
                        for g in self.aa.certificate["toBeSigned"]["certIssuePermissions"]]
         self.apps = [[[e["psid"] for e in a.certificate["toBeSigned"]["appPermissions"]] for a in ts] for ts in self.tickets]
@@ -175,6 +181,7 @@ class Sim:
         self.asked = {}                 # ticket -> a peer asked for it since then
         self.pending = {}               # (R, ticket of S) -> "await-R-cam" | "await-S-cam"
         self.events = []                # replayable log
+        self.cur_area = False           # destination area of the emission being delivered (False: single-hop broadcast)
 
     def joined(self, k):
         return self.st[k] is not None
@@ -182,12 +189,15 @@ class Sim:
     def do_join(self, k):
         w = self.w
         pre = [a for j in self.pre[k] for a in w.tickets[j]]
-        s = sc.RouterStation(w.pki.backend, k + 1, [w.root], [w.aa], pre, own=w.tickets[k],
-                             lat=415000000 + 100 * k, lon=21000000 + 100 * k)
+        mon = k in w.monitors
+        s = sc.RouterStation(w.pki.backend, k + 1, [w.root], [w.aa], pre, own=w.tickets[k], has_sign=not mon,
+                             lat=LAT0 + STEP * k, lon=LON0 + STEP * k)
         self.st[k] = s
         self.auth[k] = AuthOracle([w.root], [w.aa], pre)
         self.knows[k] = {sc.hid8(a.certificate) for a in pre}
-        ls = sc.new_station_lines(w.A, k + 1, [w.root], [w.aa], pre)
+        ls = sc.new_station_lines(w.A, k + 1, [w.root], [w.aa], pre, has_sign=not mon)
+        if mon:
+            self.ctx.cover("join_receive_only_station")
         for a in w.tickets[k]:
             ls.append(f"addown {k + 1} {w.A.cert(a.certificate)} {w.A.cert(w.aa.certificate)}")
         self.lines += ls
@@ -197,20 +207,57 @@ class Sim:
 
     def case(self):
         return {"kind": "scenario", "id": self.sid, "n": self.n, "join": self.join, "pre": self.pre, "apps": self.w.apps, "groups": self.w.groups,
-                "vals": self.w.vals, "ssps": self.w.ssps, "join_all": getattr(self, "join_all", False),
+                "vals": self.w.vals, "ssps": self.w.ssps, "monitors": self.w.monitors, "join_all": getattr(self, "join_all", False),
                 "events": list(self.events)}
 
-    def emit(self, k, kind, payload):
+    def pick_area(self, k, kind):
+        """GENERATION POSITION relative to the destination area of a DENM / generic message (None = the default: DENM to
+        500 m around the sender, generic message as single-hop broadcast): the sender inside its area; the area centred on
+        a peer with the sender OUTSIDE (10 m circle, stations are ~28 m apart); a remote area containing nobody (event
+        ahead).  Returns (area or None, transport)"""
+        rng = self.ctx.rng
+        if kind not in ("denm", "other"):
+            return None, None
+        r = rng.random()
+        transport = "gac" if rng.random() < 0.2 else "gbc"
+        if r < 0.45:
+            return None, None
+        peers = [j for j in range(self.n) if j != k and self.joined(j)]
+        if r < 0.6:
+            return [LAT0 + STEP * k, LON0 + STEP * k, rng.choice([50, 500, 2000]), 0], transport
+        if r < 0.8 and peers:
+            j = rng.choice(peers)
+            return [LAT0 + STEP * j, LON0 + STEP * j, 10, 0], transport
+        far = rng.choice([300_000, 500_000, -400_000])
+        return [LAT0 + far, LON0 + rng.choice([0, far]), rng.choice([100, 500]), 0], transport
+
+    def inside(self, j, area):
+        """is station j inside the circular area -- only answered when it is clear-cut (None near the border)"""
+        import math
+        dlat = (LAT0 + STEP * j - area[0]) * 1e-7 * 111_320.0
+        dlon = (LON0 + STEP * j - area[1]) * 1e-7 * 111_320.0 * math.cos(math.radians(area[0] * 1e-7))
+        d = math.hypot(dlat, dlon)
+        if d < 0.5 * area[2]:
+            return True
+        if d > 2 * area[2] + 5:
+            return False
+        return None
+
+    def emit(self, k, kind, payload, area=None, transport=None):
         ctx, w, A = self.ctx, self.w, self.w.A
         s = self.st[k]
         now = self.clock.ms
         aid = KIND_AID[kind]
-        self.events.append([now - T0, k, kind, len(payload)])
+        self.events.append([now - T0, k, kind, len(payload)] + ([area, transport] if area is not None else []))
+        self.cur_area = area if (area is not None or kind == "denm") else False     # False: single-hop broadcast
+        if area is not None:
+            src_in = self.inside(k, area)
+            ctx.cover(f"{kind}_{transport}_source_{'inside' if src_in else 'outside' if src_in is False else 'near-border-of'}_area")
         app = w.app_of(k)
         multi = len(w.tickets[k]) > 1
         fid = "C05-F2" if multi else None       # a station signing with several tickets: region of finding C05-F2
         try:
-            frames = s.send(kind, payload, now)
+            frames = s.send(kind, payload, now, area=tuple(area) if area is not None else None, transport=transport)
             err = None
         except Exception as e:  # noqa: BLE001
             frames, err = [], e
@@ -328,6 +375,10 @@ class Sim:
                     ctx.violation(f"{kind} of station {k}: payload delivered by station {r} differs from the payload sent", self.case())
                 if inds:
                     ctx.cover("indication_payload_equal")
+                elif self.cur_area is False or self.inside(r, self.cur_area or [LAT0 + STEP * k, LON0 + STEP * k, 500, 0]):
+                    # single-hop broadcast, or the receiver is well inside the destination area: the upper layer gets it
+                    ctx.violation(f"{kind} of station {k} accepted by station {r} (inside the destination area) but its payload was "
+                                  "not delivered to the upper layer", self.case())
                 if carries:
                     self.knows[r].add(h8)
                 # a request for one of r's own tickets inside an accepted CAM/VAM
@@ -369,13 +420,13 @@ def run_scenario(ctx, w, clock, n, n_events, sid, script=None):
         for k in range(n):
             if not sim.joined(k) and sim.join[k] <= t:
                 sim.do_join(k)
-        senders = [k for k in range(n) if sim.joined(k)]
+        senders = [k for k in range(n) if sim.joined(k) and k not in w.monitors]
         k = rng.choice(senders)
         app = w.app_of(k)
         kinds = [kd for kd, aid in KIND_AID.items() if aid in app]
         kind = rng.choice(kinds + [kd for kd in kinds if kd in ("cam", "vam")] * 2 + (["other", "vam"] if rng.random() < 0.05 else []))
         payload = bytes(rng.randrange(256) for _ in range(rng.choice([1, 5, 30, 200])))
-        res = sim.emit(k, kind, payload)
+        res = sim.emit(k, kind, payload, *sim.pick_area(k, kind))
         if res is not None:
             sim.deliver(k, kind, payload, *res)
     return sim
@@ -418,7 +469,7 @@ def run_periodic(ctx, w, clock, n, sid, horizon_ms=None, max_events=70):
             if not sim.joined(j) and sim.join[j] <= t:
                 sim.do_join(j)
         payload = bytes(rng.randrange(256) for _ in range(rng.choice([1, 5, 30])))
-        res = sim.emit(k, kind, payload)
+        res = sim.emit(k, kind, payload, *sim.pick_area(k, kind))
         if res is not None:
             sim.deliver(k, kind, payload, *res)
     ctx.cover("periodic_scenarios")
@@ -479,15 +530,23 @@ def compare(ctx, sims):
         pos += len(s.lines)
 
 
+def pick_monitors(rng, n):
+    """receive-only stations of a world (never station 0: somebody has to send): none in 60 % of the worlds"""
+    if n < 2 or rng.random() < 0.6:
+        return []
+    return sorted(rng.sample(range(1, n), 1 if n < 4 or rng.random() < 0.7 else 2))
+
+
 def multi_ticket_world(rng, n):
     """at least one station signs with separate tickets per service (the dense-traffic scenarios are about them)"""
     apps = [None] * n
-    for k in rng.sample(range(n), rng.choice([1, 1, n])):
+    mon = pick_monitors(rng, n)
+    for k in rng.sample([j for j in range(n) if j not in mon], 1 if rng.random() < 0.67 else n - len(mon)):
         apps[k] = rng.choice([[[36, 37, 99], [638]], [[36], [638, 37]], [[638], [36, 37, 99]], [[36, 99], [37], [638]]])
     for k in range(n):
         if apps[k] is None:
             apps[k] = rng.choice([[36, 37, 638, 99], [36, 37, 99], [36, 37], [638, 37, 99]])
-    return World(rng, n, apps=apps)
+    return World(rng, n, apps=apps, monitors=mon)
 
 
 def check_scenarios(ctx, clock, n_scen, tag, extra=(), n_periodic=0, edges=False):
@@ -496,11 +555,11 @@ def check_scenarios(ctx, clock, n_scen, tag, extra=(), n_periodic=0, edges=False
         sims += run_validity_edges(ctx, clock, f"{tag}edge")
     for i in range(n_periodic):
         n = ctx.rng.choice([2, 2, 3, 3, 4])
-        w = multi_ticket_world(ctx.rng, n) if ctx.rng.random() < 0.7 else World(ctx.rng, n)
+        w = multi_ticket_world(ctx.rng, n) if ctx.rng.random() < 0.7 else World(ctx.rng, n, monitors=pick_monitors(ctx.rng, n))
         sims.append(run_periodic(ctx, w, clock, n, f"{tag}p{i}"))
     for i in range(n_scen):
         n = ctx.rng.choice([2, 2, 3, 3, 4, 5])
-        w = World(ctx.rng, n)
+        w = World(ctx.rng, n, monitors=pick_monitors(ctx.rng, n))
         sims.append(run_scenario(ctx, w, clock, n, ctx.rng.randrange(12, 40), f"{tag}{i}"))
     compare(ctx, sims)
     if sims:
@@ -580,7 +639,7 @@ def run_recorded(ctx, clock, case, sid):
     import random
     rng = random.Random(1)
     n = case["n"]
-    w = World(rng, n, case.get("apps"), case.get("groups"), case.get("vals"), case.get("ssps"))
+    w = World(rng, n, case.get("apps"), case.get("groups"), case.get("vals"), case.get("ssps"), case.get("monitors", ()))
     sim = Sim(ctx, w, clock, n, sid)
     sim.join, sim.pre = case["join"], case["pre"]
     honest_world(ctx, w, sim)
@@ -590,14 +649,14 @@ def run_recorded(ctx, clock, case, sid):
             clock.ms = T0 + case["events"][0][0]
         for j in range(n):
             sim.do_join(j)
-    for (t, k, kind, plen) in case["events"]:
+    for (t, k, kind, plen, *geo) in case["events"]:
         clock.ms = T0 + t
         for j in range(n):
             if not sim.joined(j) and sim.join[j] <= t - 10_000:
                 sim.do_join(j)
         if not sim.joined(k):
             sim.do_join(k)
-        res = sim.emit(k, kind, bytes(plen))
+        res = sim.emit(k, kind, bytes(plen), *(geo if geo else (None, None)))
         if res is not None:
             sim.deliver(k, kind, bytes(plen), *res)
     return sim
